@@ -103,6 +103,11 @@ fn run(c: &mut Case) {
         _ => vec![],
     };
     let base_cfg = RCfg { allow: *c.rng.pick(&[0u8, 0, 0, 1, 2, 4, 7, 3]), buffered, capacity: None, max_size: MaxSz::Set(Some(*c.rng.pick(&[100usize, 4096, 1 << 16, 1 << 20]))), eof_end: true };
+    // unmutated documents declare honest sizes: there the limit may also be removed or left untouched
+    let mut base_cfg = base_cfg;
+    if inp.mutations.is_empty() && (inp.kind.starts_with("valid") || inp.kind.starts_with("truncated")) && c.rng.chance(1, 3) {
+        base_cfg.max_size = *c.rng.pick(&[MaxSz::Set(None), MaxSz::Default]);
+    }
     let base = parse_slice(&inp.bytes, &base_cfg);
     c.eval();
     if let Ev::Caught(cg) = &base.end {
